@@ -180,6 +180,7 @@ impl Property for C05 {
             a: crate::runner::unhex(payload["a"].as_str().unwrap_or("")),
             b: crate::runner::unhex(payload["b"].as_str().unwrap_or("")),
             c: crate::runner::unhex(payload["c"].as_str().unwrap_or("")),
+            small: false,
         };
         let mut st = Stats::default();
         for _ in 0..8 {
